@@ -33,7 +33,6 @@ import (
 
 	"jsim/chaingen"
 	"jsim/faultdb"
-	"jsim/harness/node"
 	"jsim/sim"
 )
 
@@ -153,8 +152,9 @@ type config struct {
 }
 
 type stored struct {
-	b    *chaingen.Block
-	step int // scheduler step at which its store commit was released (0: before the run)
+	b       *chaingen.Block
+	step    int // scheduler step at which its store commit was released (0: before the run)
+	fetched int // step of the earliest delivery of this block to the node since it last lost it (0: before the run)
 }
 
 type delivery struct {
@@ -162,7 +162,8 @@ type delivery struct {
 	ver  *version
 	kind string // block | latest
 	n    uint64
-	note string
+	note string          // "" truthful | stale | otherfork | flap | corrupt:<kind>
+	blk  *chaingen.Block // block responses: the (valid) block that was served; nil for corrupted ones
 }
 
 type tamperRec struct {
@@ -214,6 +215,7 @@ type world struct {
 
 	// model of the node's chain and oracle state
 	local          []stored
+	lastGone       map[*chaingen.Block]int // step at which the node last reverted the block
 	revertRun      []*chaingen.Block // blocks reverted since the last store, in revert order
 	commitReleased bool
 	deliveries     []delivery
@@ -267,7 +269,7 @@ func drawConfig(c *sim.Ctx, preconf bool) config {
 }
 
 func newWorld(c *sim.Ctx, cfg config) *world {
-	w := &world{c: c, cfg: cfg, start: time.Now(), byHash: map[felt.Felt]*chaingen.Block{}, occ: map[string]int{}, nSeen: map[*req]bool{}}
+	w := &world{c: c, cfg: cfg, start: time.Now(), byHash: map[felt.Felt]*chaingen.Block{}, lastGone: map[*chaingen.Block]int{}, occ: map[string]int{}, nSeen: map[*req]bool{}}
 	w.drv = newChainDriver(c)
 	var chain []*chaingen.Block
 	var parent *chaingen.Block
@@ -488,7 +490,11 @@ func (w *world) release(r *req, x resp) {
 }
 
 func (w *world) deliver(kind string, n uint64, ver *version, note string) {
-	w.deliveries = append(w.deliveries, delivery{step: w.step, ver: ver, kind: kind, n: n, note: note})
+	d := delivery{step: w.step, ver: ver, kind: kind, n: n, note: note}
+	if kind == "block" && !strings.HasPrefix(note, "corrupt") {
+		d.blk = ver.chain[n]
+	}
+	w.deliveries = append(w.deliveries, d)
 }
 
 func (w *world) answerCtxErr(r *req) {
@@ -570,14 +576,14 @@ func (w *world) answerLatest(r *req, mode string) {
 		m := w.cur.tip()
 		w.deliver("latest", m.B.Number, w.cur, "")
 		w.logf("answer %s: latest %d %s (v%d)", r.key, m.B.Number, short(m.B.Hash), w.cur.id)
-		w.release(r, resp{hdr: node.Clone(m.B.Header)})
+		w.release(r, resp{hdr: Clone(m.B.Header)})
 	case "stale":
 		k := c.T.Draw("stale.height", len(w.cur.chain)-1)
 		m := w.cur.chain[k]
 		c.Fault("stale_latest")
 		w.deliver("latest", m.B.Number, &version{id: w.cur.id, chain: w.cur.chain[:k+1]}, "stale")
 		w.logf("answer %s: STALE latest %d %s (v%d tip is %d)", r.key, m.B.Number, short(m.B.Hash), w.cur.id, len(w.cur.chain)-1)
-		w.release(r, resp{hdr: node.Clone(m.B.Header)})
+		w.release(r, resp{hdr: Clone(m.B.Header)})
 	case "flap":
 		vs := w.flapVersions()
 		v := vs[c.T.Draw("flap.v", len(vs))]
@@ -585,7 +591,7 @@ func (w *world) answerLatest(r *req, mode string) {
 		c.Fault("flapping_latest")
 		w.deliver("latest", m.B.Number, v, "flap")
 		w.logf("answer %s: FLAPPING latest %d %s of v%d (current v%d)", r.key, m.B.Number, short(m.B.Hash), v.id, w.cur.id)
-		w.release(r, resp{hdr: node.Clone(m.B.Header)})
+		w.release(r, resp{hdr: Clone(m.B.Header)})
 	}
 }
 
